@@ -112,10 +112,12 @@ pub fn gen_fine_history(rng: &mut Rng, cfg: &Config, o: &FineOpts) -> (Vec<Vec<O
 
 pub fn gen_c10(base_seed: u64, batch: &str, run: u64, rng: &mut Rng) -> Scenario {
     let cfg = gen_fine_config(rng, false, false);
+    // now and then many threads with one call each instead of few threads with several
+    let crowd = rng.chance(1, 20);
     let o = FineOpts {
-        min_threads: 2,
-        max_threads: 4,
-        max_calls_per_thread: 3,
+        min_threads: if crowd { 6 } else { 2 },
+        max_threads: if crowd { 8 } else { 4 },
+        max_calls_per_thread: if crowd { 1 } else { 3 },
         nested: false,
         shared_original_pct: 35,
         mock_panics_wanted: false,
@@ -532,6 +534,39 @@ pub fn gen_c08(base_seed: u64, batch: &str, run: u64, rng: &mut Rng) -> Scenario
             threads[t].insert(at, Op::Own { slot, which: OwnKind::Tup1, x: 0, catch: true, die_with_value: false, fault: None });
         }
     }
+    // a lent value whose destructor calls the mock (through a clone it owns) while its owner - the
+    // original - is being verified: what that call does still belongs to the verdict
+    if rng.chance(1, 8) {
+        cfg.specials.push(Special::LendGuard);
+        let at = prelude.min(threads[0].len());
+        threads[0].insert(at, Op::Call { slot: 0, m: M::LendGuard, x: rng.below(4) as u8, y: 0, catch: true, fault: None, keep: false });
+    }
+    // an error storm: dozens of failing calls with pairwise different texts on one mock
+    if rng.chance(1, 20) {
+        cfg.partial = false;
+        let flat = cfg.flatten();
+        let mut combos: Vec<(M, u8, u8)> = vec![];
+        for m in [M::B2, M::A0, M::A1, M::B3] {
+            if flat.mentioned(m) {
+                continue;
+            }
+            for x in 0..4u8 {
+                for y in 0..(if m.info().two_args { 4u8 } else { 1 }) {
+                    combos.push((m, x, y));
+                }
+            }
+        }
+        rng.shuffle(&mut combos);
+        combos.truncate(rng.range(9, 45).min(combos.len()));
+        let at = threads[0]
+            .iter()
+            .position(|o| matches!(o, Op::Wait { .. } | Op::Drop { .. } | Op::Verify { .. } | Op::Report { .. }))
+            .unwrap_or(threads[0].len())
+            .max(prelude);
+        for (k, (m, x, y)) in combos.into_iter().enumerate() {
+            threads[0].insert(at + k, Op::Call { slot: 0, m, x, y, catch: true, fault: None, keep: false });
+        }
+    }
     let st = Steer::new(&cfg);
     // some threads own their clone on their stack and die of an uncaught panic
     for t in 1..threads.len() {
@@ -621,13 +656,19 @@ pub fn check_c08(scn: &Scenario) -> Checked {
     }
     let (o, op) = finals[0];
     // texts of the mock-induced panics, taken where they originated (not where they propagated through)
+    // (calls made *inside* the final operation come from destructors of lent values, which the
+    // instance releases before it reads the error list and judges the counts: they belong to it)
+    let inside = |c: &CallRec| c.op == (o.thread, o.index);
     let induced: Vec<&CallRec> = res
         .log
         .calls
         .iter()
-        .filter(|c| c.prog.is_none() && matches!(c.outcome, Some(Outcome::MockPanic(_))) && c.return_step < o.start_step)
+        .filter(|c| c.prog.is_none() && matches!(c.outcome, Some(Outcome::MockPanic(_))) && (c.return_step < o.start_step || inside(c)))
         .collect();
-    let unfinished = res.log.calls.iter().any(|c| c.outcome.is_none() || c.return_step >= o.start_step);
+    if res.log.calls.iter().any(|c| inside(c)) {
+        *stats.probes.entry("call_made_by_a_lent_value_released_during_verification".into()).or_default() += 1;
+    }
+    let unfinished = res.log.calls.iter().any(|c| c.outcome.is_none() || (c.return_step >= o.start_step && !inside(c)));
     if unfinished {
         return Checked { violations, stats, harness_error: None };
     }
@@ -662,8 +703,24 @@ pub fn check_c08(scn: &Scenario) -> Checked {
     // that instance's verification: only errors induced through clones are covered there
     #[cfg(not(feature = "stdworld"))]
     {
+        // a call made by a default body runs on the delegation helper, which is a clone: an error
+        // induced there is covered even when the outer call went through the original
+        let through_helper = |c: &CallRec| {
+            let mut cur = c;
+            loop {
+                let Some(inv) = cur.parent_inv else { return false };
+                let Some(prog) = res.log.progs.iter().find(|p| p.inv == inv) else { return false };
+                if matches!(prog.kind, ProgKind::DefaultBody(_)) {
+                    return true;
+                }
+                match prog.call.and_then(|cid| res.log.calls.get(cid as usize)) {
+                    Some(outer) => cur = outer,
+                    None => return false,
+                }
+            }
+        };
         let via_original = induced.iter().any(|c| {
-            matches!(scn.threads.get(c.op.0 as usize).and_then(|t| t.get(c.op.1 as usize)), Some(Op::Call { slot: 0, .. }))
+            matches!(scn.threads.get(c.op.0 as usize).and_then(|t| t.get(c.op.1 as usize)), Some(Op::Call { slot: 0, .. })) && !through_helper(c)
         }) || res.log.ops.iter().any(|r| {
             matches!(r.result, OpResult::Panicked(_))
                 && matches!(scn.threads.get(r.thread as usize).and_then(|t| t.get(r.index as usize)), Some(Op::Own { slot: 0, .. }))
@@ -721,7 +778,9 @@ pub fn check_c08(scn: &Scenario) -> Checked {
         if user_panics > 0 {
             *stats.probes.entry("only_user_panics_verdict_by_counts".into()).or_default() += 1;
         }
-        if let Some(pre) = &o.pre {
+        // the state the verdict is about: after the calls that lent values made while they were released
+        let last_inside = res.log.calls.iter().filter(|c| inside(c) && c.parent.is_none()).max_by_key(|c| c.return_step).and_then(|c| c.post.clone());
+        if let Some(pre) = last_inside.as_ref().or(o.pre.as_ref()) {
             if !pre.errors.is_empty() {
                 violations.push(v(
                     "C08",
